@@ -48,7 +48,7 @@ func GenProgram(b Bias) *rapid.Generator[Program] {
 		p := Program{
 			LaneSize:  rapid.IntRange(minL, 4).Draw(t, "laneSize"),
 			QueueSize: rapid.IntRange(0, 3).Draw(t, "queueSize"),
-			Timeout:   rapid.SampledFrom([]time.Duration{time.Millisecond, 100 * time.Millisecond, time.Second}).Draw(t, "timeout"),
+			Timeout:   rapid.SampledFrom([]time.Duration{time.Millisecond, 100 * time.Millisecond, 100 * time.Millisecond, time.Second, time.Second, 0, -time.Second}).Draw(t, "timeout"),
 			LateGates: rapid.IntRange(0, 3).Draw(t, "lateGates") == 0,
 		}
 		if rapid.IntRange(0, 99).Draw(t, "useDeadline") < b.Deadline {
